@@ -55,8 +55,24 @@ def run_session(*a, **kw):
         return _run_session(*a, **kw)
 
 
+_EXIT_FLUSH_CHILD = r"""
+import json, sys
+from neuroglancer_scripts import sharded_file_accessor as sfa
+job = json.load(open(sys.argv[1]))
+acc = sfa.ShardedFileAccessor(job["dir"], strategy=job["strategy"])
+errs = []
+for pos, pay, coords in job["stores"]:
+    try:
+        acc.store_chunk(bytes(pay), job["key"], tuple(coords))
+    except Exception as e:
+        errs.append({"pos": pos, "cls": type(e).__name__})
+json.dump(errs, open(sys.argv[2], "w"))
+# no close(): the accessor registered its own close() with atexit
+"""
+
+
 def _run_session(workdir, cfg, order, strategy="in memory", salt=0, fetch_all=True,
-                parse=True, cs=4, sizes=None, payload_fn=None):
+                parse=True, cs=4, sizes=None, payload_fn=None, exit_flush=False):
     """One store/close/reopen/fetch cycle on the real ShardedFileAccessor.
 
     cfg: dict(grid, pb, mb, sb, enc).  order: list of positions to store.
@@ -78,9 +94,32 @@ def _run_session(workdir, cfg, order, strategy="in memory", salt=0, fetch_all=Tr
            "enc": enc, "ienc": ienc, "strategy": strategy, "stores": [], "storeerr": [], "ids": [],
            "files": [], "fetch": [], "framing": [], "closeerr": None}
     try:
+        if exit_flush:
+            # a writer PROCESS that stores and simply ends: the flush is the accessor's
+            # own exit handler (registered in its constructor)
+            import subprocess
+            import sys
+            job = os.path.join(workdir, "job_%s.json" % os.path.basename(d))
+            rep = job + ".rep"
+            stores = [[list(pos), list((payload_fn or payload_for)(pos, salt)), list(coords_of(pos, cs, sizes))]
+                      for pos in order]
+            with open(job, "w") as f:
+                json.dump({"dir": d, "strategy": strategy, "key": KEY, "stores": stores}, f)
+            env = dict(os.environ, TMPDIR=workdir, PYTHONDONTWRITEBYTECODE="1")
+            p = subprocess.run([sys.executable, "-c", _EXIT_FLUSH_CHILD, job, rep], env=env,
+                               capture_output=True, text=True, timeout=300)
+            errs = json.load(open(rep)) if os.path.exists(rep) else [{"pos": [-1, -1, -1], "cls": "child:rc%d" % p.returncode}]
+            bad = {tuple(e["pos"]) for e in errs}
+            rec["stores"] = [{"pos": st[0], "pay": st[1]} for st in stores if tuple(st[0]) not in bad]
+            rec["storeerr"] = errs
+            rec["exit_flush"] = True
+            rec["child_rc"] = p.returncode
+            for q in (job, rep):
+                if os.path.exists(q):
+                    os.unlink(q)
         acc = sfa.ShardedFileAccessor(d, strategy=strategy)
         try:
-            for pos in order:
+            for pos in ([] if exit_flush else order):
                 pay = (payload_fn or payload_for)(pos, salt)
                 try:
                     acc.store_chunk(pay, KEY, coords_of(pos, cs, sizes))
